@@ -3379,7 +3379,7 @@ class SetInstance(object):
                 where_list.append([ converter.EQ, [ 'COLUMN', None, column ], [ 'PARAM', (i, None, None), converter ] ])
             if not reverse.is_collection:
                 table_name = rentity._table_
-                select_list, attr_offsets = rentity._construct_select_clause_()
+                select_list, attr_offsets = rentity._construct_select_clause_(query_attrs=(reverse,))
             else:
                 table_name = attr.table
                 select_list = [ 'ALL' ] + [ [ 'COLUMN', None, column ] for column in attr.columns ]
